@@ -20,7 +20,7 @@ def name(rng):
 def vb_opts(rng):
     o = {}
     if rng.random() < 0.15:
-        o["w"] = rng.choice([1, 2, 3])
+        o["w"] = gen.len_width(rng)
     if rng.random() < 0.1:
         o["ow"] = rng.choice([1, 2])
     return o
@@ -98,7 +98,7 @@ class C02(Prop):
                     vbs = [[o, gen.value(rng, kinds), vb_opts(rng)] for o in names]
                 item = {"k": "custom", "pdu": "response", "varbinds": vbs}
                 if rng.random() < 0.2:
-                    item["opts"] = {"w": rng.choice([0, 2, 3]), "vw": rng.choice([0, 2, 3])}
+                    item["opts"] = {"w": rng.choice([0, 2, 3, gen.len_width(rng)]), "vw": rng.choice([0, 2, 3, gen.len_width(rng)])}
                 scripts["%d:1" % opid] = {"replies": [item]}
         return {"flavour": flavour, "agent": agent, "sessions": [sess], "ops": ops, "scripts": scripts, "latency_ns": 1_000_001, "poison": rng.randrange(256)}
 
